@@ -38,6 +38,7 @@ ALLOWED_AXIOMS = {"propext", "Classical.choice", "Quot.sound"}
 FORBIDDEN = re.compile(r"\bsorry\b|\badmit\b|^\s*axiom\s|native_decide|bv_decide|implemented_by|\bunsafe\s|maxHeartbeats\s+0")
 
 NPROC = int(os.environ.get("VERIF_NPROC", "16"))
+MODEL_STALL = float(os.environ.get("VERIF_MODEL_STALL", "90"))
 
 
 def log(*a):
@@ -314,18 +315,41 @@ def run_model(lines_per_case: list[tuple[str, list[str]]]) -> dict[str, list[str
                 if not (l.startswith("file ") or l.startswith("seg ") or l == "build" or l == "clear"):
                     k += 1
             expect.append((cid, k))
-        p = subprocess.Popen([str(exe)], stdin=subprocess.PIPE, stdout=subprocess.PIPE, stderr=subprocess.PIPE, text=True)
+        p = subprocess.Popen([str(exe)], stdin=subprocess.PIPE, stdout=subprocess.PIPE, stderr=subprocess.DEVNULL, text=True)
         procs.append((p, expect, "\n".join(text) + "\n"))
     import threading
     outs = [None] * len(procs)
 
     def comm(i):
+        """feed the driver and collect its answers; a driver that produces no new line for MODEL_STALL seconds is killed
+        (the cases it had not answered yet get no model verdict: never a violation by itself)"""
         p, _, text = procs[i]
-        try:
-            outs[i] = p.communicate(text, timeout=1200)
-        except subprocess.TimeoutExpired:
-            p.kill()
-            outs[i] = ("", "timeout")
+        chunks = []
+        last = [time.time()]
+
+        def reader():
+            for line in p.stdout:
+                chunks.append(line)
+                last[0] = time.time()
+        th = threading.Thread(target=reader, daemon=True)
+        th.start()
+
+        def writer():
+            try:
+                p.stdin.write(text)
+                p.stdin.close()
+            except (BrokenPipeError, ValueError, OSError):
+                pass
+        tw = threading.Thread(target=writer, daemon=True)
+        tw.start()
+        while th.is_alive():
+            th.join(1.0)
+            if time.time() - last[0] > MODEL_STALL:
+                p.kill()
+                log(f"driver stalled for {MODEL_STALL}s after {len(chunks)} answer lines: killed")
+                break
+        th.join(5.0)
+        outs[i] = ("".join(chunks), "")
     ths = [threading.Thread(target=comm, args=(i,)) for i in range(len(procs))]
     for t in ths:
         t.start()
@@ -335,7 +359,8 @@ def run_model(lines_per_case: list[tuple[str, list[str]]]) -> dict[str, list[str
         lines = so.splitlines()
         pos = 0
         for cid, k in expect:
-            out[cid] = lines[pos:pos + k]
+            if pos + k <= len(lines):
+                out[cid] = lines[pos:pos + k]
             pos += k
     return out
 
